@@ -85,3 +85,14 @@ Example C03_example :
        [[VInt 3; VNull]; [VInt 1; VInt 5]; [VInt 2; VInt 5]; [VInt 1; VInt 5]; [VInt 0; VNull]]
   = [[VInt 1]; [VInt 2]].
 Proof. reflexivity. Qed.
+
+(* On the executor: for aggregate and non-aggregate queries alike, the result is LIMIT (DISTINCT (projection to the
+   visible targets (ONE stable sort of the unordered rows by the directed lexicographic key order))). *)
+From Verif Require Import Model.Eval Model.Exec.
+Theorem C03_exec_pipeline : forall (q : query) (spec : list (nat * bool)) (table : list row),
+  q_order q = Some spec ->
+  exec q table =
+  limit (q_limit q) ((if q_distinct q then uniquify else fun l => l)
+                       (map (project (q_vis q)) (isort (spec_le spec) (exec_rows q table)))).
+Proof. intros q spec table H. unfold exec. rewrite H. apply post_pipeline. Qed.
+Print Assumptions C03_exec_pipeline.
